@@ -73,7 +73,7 @@ class Overlay:
             self.harness_files[hfile] = hdst
             modname = 'verif_' + kind
             with open(os.path.join(self.crate, rel), 'a') as f:
-                f.write(f'\n#[cfg({cfg})] #[path = "{hdst}"] mod {modname};\n')
+                f.write(f'\n#[cfg({cfg})] #[path = "{hdst}"] pub(crate) mod {modname};\n')
         for rel, content in (extra_files or {}).items():
             p = os.path.join(self.crate, rel)
             os.makedirs(os.path.dirname(p), exist_ok=True)
@@ -159,7 +159,10 @@ def run_kani(ov, pattern, jobs=8, timeout=1500, mem_kb=14_000_000, features=None
     """Run every harness whose name contains `pattern` in the overlay crate."""
     tdir = os.path.join(CACHE, 'kani', tname or ov.name)
     os.makedirs(tdir, exist_ok=True)
-    cmd = ['cargo', 'kani', '--target-dir', tdir, '--harness', pattern, '-j', str(jobs), '--output-format', 'terse']
+    pats = [pattern] if isinstance(pattern, str) else list(pattern)
+    cmd = ['cargo', 'kani', '--target-dir', tdir, '-j', str(jobs), '--output-format', 'terse']
+    for pt in pats:
+        cmd += ['--harness', pt]
     if exact:
         cmd.append('--exact')
     for u in unstable:
